@@ -5,14 +5,25 @@ Bounded exhaustive exploration of two model lattices with harness/unc.cpp as eva
    x an A_mu scan in units of mu*tan(beta) (fA = 1 switches the tree-level smuon mixing off; the scan drives
    the 2L(a) and the 1L/2L terms through sign changes);
  * THDM: mass basis, 6 Yukawa types x tan(beta) x (mH, mA, mH+) with mA, mH+ down to 0.05 GeV so that
-   log(m_NP/m_mu) changes sign (m_NP = m_mu exactly is a lattice point).
-For every model with finite a_mu: estimates finite and >= 0, floor of the 2L estimate, the documented sums
-(gm2_uncertainty.cpp doc comments), and all overloads taking precomputed a_mu values."""
+   log(m_NP/m_mu) changes sign.
+For every model with finite a_mu EVERY uncertainty entry point declared in the sources is evaluated - public C++,
+public C, and the helper declarations (precomputed a_mu values) in C++ and C, for both models; the declarations are
+grepped from the headers at run time and an entry point missing from the harness is an infrastructure error.
+Oracle: estimates finite and >= 0, floor of the 2L estimate, the documented sums (gm2_uncertainty.cpp doc comments),
+precomputed == computing, C == C++, arbitrary arguments honoured.
+
+The program gm2calc.x is an entry point too: lattice points are rendered to input text in every input type (GM2Calc,
+SLHA, THDM mass basis, THDM gauge basis) and run with GM2CalcConfig[5] = 1 through loop order {0,1,2} x 5 output
+formats x resummation {0,1}; the printed uncertainty must equal the library value for the same text (to the printed
+digits) and satisfy U0 = |a1L| (+ |a2L| in the THDM), U1 = |a2L| + U2, U2 >= floor with a1L, a2L taken from the
+program's own loop-order 1 and 2 results."""
 import concurrent.futures as cf
 import glob
 import json
 import math
+import multiprocessing as mp
 import os
+import re
 import struct
 import subprocess
 
@@ -21,9 +32,9 @@ from core import InfraError, hexf, unhex
 
 META = dict(
     level="exploration",
-    technique="exhaustive model-lattice enumeration (all sign patterns, A_mu and light-scalar scans), documented-composition oracle on every uncertainty overload",
-    text="Every model of the MSSM lattice (11 base points x tan beta x 8 sign patterns of mu, M1, M2 x A_mu scan) and of the THDM lattice (6 Yukawa types x tan beta x heavy-Higgs masses from 0.05 GeV to 1 TeV, including m_NP = m_mu exactly, x sin(beta-alpha)) that yields a finite a_mu is checked: three estimates finite and >= 0, 2L estimate >= 2.3e-10 / 2e-12, delta_1L = |a_2L| + delta_2L, delta_0L = |a_1L| (MSSM) resp. |a_1L| + |a_2L| (THDM), delta_2L equal to the documented formula evaluated from the library's own ingredients, overloads with precomputed values bitwise equal to the computing ones and honouring other arguments. Exhaustive over the lattices only.",
-    note="trusted: Python float arithmetic for the sums (2 ulp slack), libm log; the a_mu values themselves are not judged here (C03/C08/C11)",
+    technique="exhaustive model-lattice enumeration (all sign patterns, A_mu and light-scalar scans) x every declared uncertainty entry point (C++, C, helpers, command line x option product), documented-composition oracle",
+    text="Every model of the MSSM lattice (11 base points x tan beta x 8 sign patterns of mu, M1, M2 x A_mu scan) and of the THDM lattice (6 Yukawa types x tan beta x heavy-Higgs masses from 0.05 GeV to 1 TeV x sin(beta-alpha)) that yields a finite a_mu is checked through all 10 (MSSM) / 12 (THDM) uncertainty functions declared in gm2_uncertainty.hpp/.h and gm2_uncertainty_helpers.hpp/.h (list taken from the headers at run time): finite and >= 0, 2L estimate >= 2.3e-10 / 2e-12, delta_1L = |a_2L| + delta_2L, delta_0L = |a_1L| (MSSM) resp. |a_1L| + |a_2L| (THDM), delta_2L equal to the documented formula, precomputed-value entry points bitwise equal to the computing ones and honouring other arguments, C equal to C++. A sub-lattice rendered to input text in all four input types is run through gm2calc.x with uncertainty output for loop order {0,1,2} x 5 output formats x resummation on/off: printed value == library value to the printed digits and the same sums from the program's own a_mu outputs. Exhaustive over the lattices only.",
+    note="trusted: Python float arithmetic for the sums (2 ulp slack), libm log, GM2_slha_io as reader of the rendered text (both sides use it); the a_mu values themselves are not judged here (C03/C08/C11); C15 independently compares every printed number with the API over its own inputs",
     design_ref="3/C18")
 
 HARNESSES = [(("unc", "plain", ["unc.cpp"]), {})]
@@ -34,6 +45,7 @@ X1T, X2T = -3e-9, 2e-10
 MM = 0.1056583715
 ULP = 2.0 ** -52
 NPROC = 16
+FLOOR = {"MSSMNoFV_onshell": 2.3e-10, "THDM": 2e-12}
 
 
 def _infra(ctx, msg):
@@ -54,6 +66,32 @@ def bases():
     return fs
 
 
+# ---------------------------------------------------------------- declared entry points
+def declared_entry_points():
+    """every function declared in an uncertainty header: key 'name|model|number of double arguments'"""
+    files = sorted(set(glob.glob(os.path.join(REPO, "include", "gm2calc", "*uncertainty*.h*")) +
+                       glob.glob(os.path.join(REPO, "src", "*uncertainty*.h*")) +
+                       glob.glob(os.path.join(REPO, "src", "*", "*uncertainty*.h*"))))
+    keys = {}
+    for f in files:
+        txt = open(f).read()
+        txt = re.sub(r"/\*.*?\*/", " ", txt, flags=re.S)     # comments may name parameters: /* model */
+        txt = re.sub(r"//[^\n]*", " ", txt)
+        for m in re.finditer(r"\bdouble\s+(\w+)\s*\(([^)]*)\)\s*;", txt):
+            name, params = m.group(1), m.group(2)
+            if "uncertainty" not in name:
+                continue
+            model = "THDM" if "THDM" in params else ("MSSMNoFV_onshell" if "MSSMNoFV_onshell" in params else "?")
+            keys["%s|%s|%d" % (name, model, len(re.findall(r"\bdouble\b", params)))] = os.path.relpath(f, REPO)
+    return keys
+
+
+def loop_of(key):
+    m = re.search(r"amu_(\d)loop", key)
+    return int(m.group(1)) if m else None
+
+
+# ---------------------------------------------------------------- harness I/O
 def _run_chunk(args):
     exe, text = args
     p = subprocess.run([exe], input=text, stdout=subprocess.PIPE, stderr=subprocess.PIPE, text=True, timeout=3000)
@@ -81,6 +119,23 @@ def evaluate(kind, lines, base_files=()):
     return out
 
 
+def parse_line(ln):
+    """-> (status, scalars dict, F dict {(key, variant): value}) ; status 'EXC' for rejected models"""
+    tk = ln.split()
+    if len(tk) < 2 or tk[1] == "EXC":
+        return "EXC", {"what": " ".join(tk[2:])}, {}
+    sc, F = {}, {}
+    for t in tk[2:]:
+        if t.startswith("F:"):
+            body, val = t[2:].rsplit("=", 1)
+            key, var = body.rsplit(":", 1)
+            F[(key, var)] = unhex(val)
+        else:
+            k, v = t.split("=", 1)
+            sc[k] = unhex(v)
+    return tk[1], sc, F
+
+
 def same(a, b):
     return struct.pack("d", a) == struct.pack("d", b)
 
@@ -93,6 +148,91 @@ def fin(*v):
     return all(math.isfinite(x) for x in v)
 
 
+DECLARED = None
+
+
+def check_table(F, model):
+    """every declared entry point of this model must have been evaluated by the harness, and nothing else"""
+    global DECLARED
+    if DECLARED is None:
+        DECLARED = declared_entry_points()
+        if len(DECLARED) < 20:
+            raise InfraError("only %d uncertainty declarations found in the headers: %r" % (len(DECLARED), sorted(DECLARED)))
+        bad = [k for k in DECLARED if "|?|" in k or loop_of(k) is None]
+        if bad:
+            raise InfraError("uncertainty declarations that cannot be classified (model / loop order): %r" % bad)
+    have = set(k for k, _ in F)
+    want = set(k for k in DECLARED if k.split("|")[1] == model)
+    if want - have:
+        raise InfraError("declared uncertainty entry point(s) not evaluated by harness/unc.cpp (add them to its table): %s"
+                         % ", ".join("%s [%s]" % (k, DECLARED[k]) for k in sorted(want - have)))
+    if have - want:
+        raise InfraError("harness/unc.cpp evaluates entry point(s) that are not declared in the headers: %r" % sorted(have - want))
+
+
+def lang(key):
+    name, _, n = key.split("|")
+    return ("C" if name.startswith("gm2calc_") else "C++") + (" helper" if n != "0" else "")
+
+
+# ---------------------------------------------------------------- the oracle on one model
+def judge_entry_points(ctx, fam, model, desc, data, sc, F, U2ref, x):
+    """fam: key prefix; U2ref(a1, a2) documented 2L formula or None; x: the arbitrary arguments"""
+    a1, a2 = sc["a1L"], sc["a2L"]
+    floor = FLOOR[model]
+    pub = {k: F[("calculate_uncertainty_amu_%dloop|%s|0" % (k, model), "v")] for k in (0, 1, 2)}
+    ok = True
+    for k in (0, 1, 2):
+        v = pub[k]
+        if not (math.isfinite(v) and v >= 0):
+            ctx.fail("%s:delta_%dL:not-finite-nonnegative" % (fam, k), "%s: delta_%dL = %r" % (desc, k, v), data)
+            ok = False
+    if not ok:
+        return None
+    d0, d1, d2 = pub[0], pub[1], pub[2]
+    if not d2 >= floor:
+        ctx.fail("%s:delta_2L:below-floor" % fam, "%s: delta_2L = %r is below the documented floor %g" % (desc, d2, floor), data)
+
+    def expect(k, arg1, arg2, u2):
+        if model == "THDM":
+            return (abs(arg1) + abs(arg2), abs(arg2) + u2, u2)[k]
+        return (abs(arg1), abs(arg2) + u2, u2)[k]
+    u2doc = U2ref(a1, a2) if U2ref else None
+    if u2doc is not None and math.isfinite(u2doc) and not close(d2, u2doc, 4):
+        ctx.fail("%s:delta_2L:formula" % fam, "%s: delta_2L = %r, documented formula gives %r" % (desc, d2, u2doc), data)
+    if not close(d1, abs(a2) + d2):
+        ctx.fail("%s:delta_1L:sum" % fam, "%s: delta_1L = %r but |a_2L| + delta_2L = %r" % (desc, d1, abs(a2) + d2), data)
+    if not close(d0, expect(0, a1, a2, d2), 1):
+        ctx.fail("%s:delta_0L:sum" % fam, "%s: delta_0L = %r but the documented sum of magnitudes = %r" % (desc, d0, expect(0, a1, a2, d2)), data)
+    # every other entry point against the public C++ one
+    for (key, var), v in sorted(F.items()):
+        k = loop_of(key)
+        name = key.split("|")[0]
+        if var in ("v", "p"):
+            if key.startswith("calculate_uncertainty_amu_") and var == "v":
+                continue
+            if not same(v, pub[k]):
+                ctx.fail("%s:entry-point:%s:%s" % (fam, name, "differs-from-C++" if var == "v" else "precomputed-differs"),
+                         "%s: %s [%s]%s = %r, calculate_uncertainty_amu_%dloop(model) = %r"
+                         % (desc, name, lang(key), " with the model's own a_mu values" if var == "p" else "", v, k, pub[k]), data)
+        else:
+            # arbitrary arguments: the 2L estimate of the THDM depends on them
+            if model == "THDM":
+                u2x = F[("calculate_uncertainty_amu_2loop|THDM|2", "x")]
+                ref2 = U2ref(x[0], x[1]) if U2ref else None
+                if k == 2 and ref2 is not None and math.isfinite(ref2) and not close(v, ref2, 4):
+                    ctx.fail("%s:entry-point:%s:ignores-argument" % (fam, name), "%s: %s(model, %r, %r) = %r, documented formula gives %r"
+                             % (desc, name, x[0], x[1], v, ref2), data)
+                    continue
+                ex = expect(k, x[0], x[1], u2x) if k != 2 else None
+            else:
+                ex = expect(k, x[0], x[1], d2)
+            if ex is not None and math.isfinite(ex) and not close(v, ex):
+                ctx.fail("%s:entry-point:%s:ignores-argument" % (fam, name),
+                         "%s: %s [%s] with arguments %r = %r, documented composition gives %r" % (desc, name, lang(key), x, v, ex), data)
+    return d0, d1, d2
+
+
 # ---------------------------------------------------------------- MSSM
 def mssm_lattice(quick):
     tbs = [float("nan"), 2.0, 10.0, 50.0, 1000.0] if quick else [float("nan"), 1.0, 2.0, 5.0, 10.0, 30.0, 50.0, 100.0, 1000.0]
@@ -101,47 +241,34 @@ def mssm_lattice(quick):
     return tbs, fas, signs
 
 
+def new_mssm_st():
+    return dict(models=0, ok=0, forced=0, rejected=0, nonfinite_amu=0, a1L_neg=0, a2L_neg=0, cha_neg=0, sferm_neg=0,
+                a2L_exceeds_a1L=0, min_d2=float("inf"), max_d2=0.0, entry_point_values=0)
+
+
 def judge_mssm(ctx, st, spec, bn, tb, sg, fa, ln):
     ctx.evals(1)
-    tk = ln.split()
-    if tk[1] == "EXC":
+    status, sc, F = parse_line(ln)
+    if status == "EXC":
         st["rejected"] += 1
         return
-    a1, a2, d0, d1, d2, d0p, d1p, d0x, d1x, cha, sf = [unhex(t) for t in tk[2:13]]
+    check_table(F, "MSSMNoFV_onshell")
+    a1, a2, cha, sf = sc["a1L"], sc["a2L"], sc["cha"], sc["sferm"]
     if not fin(a1, a2):
         st["nonfinite_amu"] += 1
         return
-    st["ok" if tk[1] == "OK" else "forced"] += 1
+    st["ok" if status == "OK" else "forced"] += 1
     st["a1L_neg"] += a1 < 0; st["a2L_neg"] += a2 < 0; st["cha_neg"] += cha < 0; st["sferm_neg"] += sf < 0
     st["a2L_exceeds_a1L"] += abs(a2) > abs(a1)
+    st["entry_point_values"] += len(F)
     desc = "MSSM %s tan(beta)=%s sign(mu,M1,M2)=%r A_mu=A_mu0%+g*mu*tb [a1L=%.4g a2L=%.4g 2LaCha=%.4g 2LaSferm=%.4g]" % (
         bn, "file" if math.isnan(tb) else "%g" % tb, sg, fa, a1, a2, cha, sf)
     data = {"model": "mssm", "spec": spec, "base": bn, "tb": repr(tb), "signs": list(sg), "fA": fa}
-    cls = "sign(cha,sferm,a2L,a1L)=%d%d%d%d" % (cha < 0, sf < 0, a2 < 0, a1 < 0)
-    ctx.nontrivial(("mssm", cls, tk[1]))
-    for name, v in (("delta_0L", d0), ("delta_1L", d1), ("delta_2L", d2)):
-        if not (math.isfinite(v) and v >= 0):
-            ctx.fail("MSSM:%s:not-finite-nonnegative" % name, "%s: %s = %r" % (desc, name, v), data)
-    if not fin(d0, d1, d2):
-        return
-    st["min_d2"] = min(st["min_d2"], d2); st["max_d2"] = max(st["max_d2"], d2)
-    if not d2 >= 2.3e-10:
-        ctx.fail("MSSM:delta_2L:below-floor", "%s: delta_2L = %r is below the documented floor 2.3e-10" % (desc, d2), data)
-    ref2 = 2.3e-10 + 0.3 * (abs(cha) + abs(sf))
-    if not close(d2, ref2):
-        ctx.fail("MSSM:delta_2L:formula", "%s: delta_2L = %r, documented 2.3e-10 + 0.3 (|2L(a) cha| + |2L(a) sferm|) = %r" % (desc, d2, ref2), data)
-    if not close(d1, abs(a2) + d2):
-        ctx.fail("MSSM:delta_1L:sum", "%s: delta_1L = %r but |a_2L| + delta_2L = %r" % (desc, d1, abs(a2) + d2), data)
-    if not same(d0, abs(a1)):
-        ctx.fail("MSSM:delta_0L:sum", "%s: delta_0L = %r but |a_1L| = %r" % (desc, d0, abs(a1)), data)
-    if not (same(d0p, d0) and same(d1p, d1)):
-        ctx.fail("MSSM:overload:precomputed-differs", "%s: with precomputed a_mu delta_0L, delta_1L = %r, %r; computing overloads give %r, %r"
-                 % (desc, d0p, d1p, d0, d1), data)
-    if not same(d0x, abs(X1M)):
-        ctx.fail("MSSM:overload:delta_0L-ignores-argument", "%s: calculate_uncertainty_amu_0loop(model, %r) = %r, expected %r" % (desc, X1M, d0x, abs(X1M)), data)
-    if not close(d1x, abs(X2M) + d2):
-        ctx.fail("MSSM:overload:delta_1L-ignores-argument", "%s: calculate_uncertainty_amu_1loop(model, %r) = %r, expected |x| + delta_2L = %r"
-                 % (desc, X2M, d1x, abs(X2M) + d2), data)
+    ctx.nontrivial(("mssm", "sign(cha,sferm,a2L,a1L)=%d%d%d%d" % (cha < 0, sf < 0, a2 < 0, a1 < 0), status))
+    r = judge_entry_points(ctx, "MSSM", "MSSMNoFV_onshell", desc, data, sc, F,
+                           lambda x1, x2: 2.3e-10 + 0.3 * (abs(cha) + abs(sf)), (X1M, X2M))
+    if r:
+        st["min_d2"] = min(st["min_d2"], r[2]); st["max_d2"] = max(st["max_d2"], r[2])
 
 
 def check_mssm(ctx):
@@ -157,8 +284,7 @@ def check_mssm(ctx):
                     specs.append("%d %s %d %d %d %s %s %s" % (bi, "nan" if math.isnan(tb) else hexf(tb), sg[0], sg[1], sg[2], hexf(fa), hexf(X1M), hexf(X2M)))
                     meta.append((os.path.basename(f), tb, sg, fa))
     res = evaluate("mssm", specs, files)
-    st = dict(models=len(specs), ok=0, forced=0, rejected=0, nonfinite_amu=0, a1L_neg=0, a2L_neg=0, cha_neg=0, sferm_neg=0,
-              a2L_exceeds_a1L=0, min_d2=float("inf"), max_d2=0.0)
+    st = new_mssm_st(); st["models"] = len(specs)
     for spec, (bn, tb, sg, fa), ln in zip(specs, meta, res):
         judge_mssm(ctx, st, spec, bn, tb, sg, fa, ln)
     ctx.note("mssm", st)
@@ -183,60 +309,44 @@ def thdm_lattice(quick):
     return types, tbs, mHs, light, sbas, runs
 
 
+def new_thdm_st():
+    return dict(models=0, checked=0, rejected=0, nonfinite_amu=0, mNP_below_mmu=0, mNP_equals_mmu=0, mNP_above_mmu=0,
+                a1L_neg=0, a2L_neg=0, min_d2=float("inf"), max_d2=0.0, entry_point_values=0)
+
+
+def thdm_u2(sc):
+    mNP = min(abs(sc["mH"]), abs(sc["mA"]), abs(sc["mHp"]))
+    try:
+        dal = -4 * sc["aem"] / math.pi * math.log(abs(mNP / sc["mm"]))
+    except (ValueError, ZeroDivisionError):
+        dal = float("nan")
+    return mNP, (lambda x1, x2: 2e-12 + abs(x1 * dal) + abs(x2 * dal))
+
+
 def judge_thdm(ctx, st, spec, ty, tb, mH, mA, mHp, sba, rn, ln):
     ctx.evals(1)
-    tk = ln.split()
-    if tk[1] == "EXC":
+    status, sc, F = parse_line(ln)
+    if status == "EXC":
         st["rejected"] += 1
         return
-    a1, a2, d0, d1, d2, d0p, d1p, d2p, d0x, d1x, d2x, MH, MA, MHP, mm, aem = [unhex(t) for t in tk[2:18]]
+    check_table(F, "THDM")
+    a1, a2 = sc["a1L"], sc["a2L"]
     if not fin(a1, a2):
         st["nonfinite_amu"] += 1
         return
     st["checked"] += 1
-    mNP = min(abs(MH), abs(MA), abs(MHP))
-    rel = "below" if mNP < mm else ("equals" if mNP == mm else "above")
+    st["entry_point_values"] += len(F)
+    mNP, u2 = thdm_u2(sc)
+    rel = "below" if mNP < sc["mm"] else ("equals" if mNP == sc["mm"] else "above")
     st["mNP_%s_mmu" % rel] += 1
     st["a1L_neg"] += a1 < 0; st["a2L_neg"] += a2 < 0
     desc = "THDM type %d tan(beta)=%g mH=%g mA=%r mH+=%r sin(b-a)=%g running=%d [a1L=%.4g a2L=%.4g m_NP=%r m_mu=%r]" % (
-        ty, tb, mH, mA, mHp, sba, rn, a1, a2, mNP, mm)
+        ty, tb, mH, mA, mHp, sba, rn, a1, a2, mNP, sc["mm"])
     data = {"model": "thdm", "spec": spec, "meta": [ty, tb, mH, mA, mHp, sba, rn]}
     ctx.nontrivial(("thdm", ty, rel, a1 < 0, a2 < 0))
-    for name, v in (("delta_0L", d0), ("delta_1L", d1), ("delta_2L", d2)):
-        if not (math.isfinite(v) and v >= 0):
-            ctx.fail("THDM:%s:not-finite-nonnegative:mNP-%s-mmu" % (name, rel), "%s: %s = %r" % (desc, name, v), data)
-    if not fin(d0, d1, d2):
-        return
-    st["min_d2"] = min(st["min_d2"], d2); st["max_d2"] = max(st["max_d2"], d2)
-    if not d2 >= 2e-12:
-        ctx.fail("THDM:delta_2L:below-floor:mNP-%s-mmu" % rel, "%s: delta_2L = %r is below the documented floor 2e-12" % (desc, d2), data)
-    try:
-        dal = -4 * aem / math.pi * math.log(abs(mNP / mm))
-    except (ValueError, ZeroDivisionError):
-        dal = float("nan")
-
-    def f2(x1, x2):
-        return 2e-12 + abs(x1 * dal) + abs(x2 * dal)
-    if math.isfinite(dal):
-        if not close(d2, f2(a1, a2), 4):
-            ctx.fail("THDM:delta_2L:formula:mNP-%s-mmu" % rel,
-                     "%s: delta_2L = %r, documented 2e-12 + (|a_1L| + |a_2L|) |4 alpha/pi log(m_NP/m_mu)| = %r" % (desc, d2, f2(a1, a2)), data)
-        if not close(d2x, f2(X1T, X2T), 4):
-            ctx.fail("THDM:overload:delta_2L-ignores-argument", "%s: calculate_uncertainty_amu_2loop(model, %r, %r) = %r, expected %r"
-                     % (desc, X1T, X2T, d2x, f2(X1T, X2T)), data)
-    if not close(d1, abs(a2) + d2):
-        ctx.fail("THDM:delta_1L:sum", "%s: delta_1L = %r but |a_2L| + delta_2L = %r" % (desc, d1, abs(a2) + d2), data)
-    if not close(d0, abs(a1) + abs(a2), 1):
-        ctx.fail("THDM:delta_0L:sum", "%s: delta_0L = %r but |a_1L| + |a_2L| = %r" % (desc, d0, abs(a1) + abs(a2)), data)
-    if not (same(d0p, d0) and same(d1p, d1) and same(d2p, d2)):
-        ctx.fail("THDM:overload:precomputed-differs", "%s: with precomputed a_mu (delta_0L, delta_1L, delta_2L) = %r; computing overloads give %r"
-                 % (desc, (d0p, d1p, d2p), (d0, d1, d2)), data)
-    if not close(d0x, abs(X1T) + abs(X2T), 1):
-        ctx.fail("THDM:overload:delta_0L-ignores-argument", "%s: calculate_uncertainty_amu_0loop(model, %r, %r) = %r, expected %r"
-                 % (desc, X1T, X2T, d0x, abs(X1T) + abs(X2T)), data)
-    if fin(d2x) and not close(d1x, abs(X2T) + d2x):
-        ctx.fail("THDM:overload:delta_1L-ignores-argument", "%s: calculate_uncertainty_amu_1loop(model, %r, %r) = %r, expected |x2| + delta_2L(x1,x2) = %r"
-                 % (desc, X1T, X2T, d1x, abs(X2T) + d2x), data)
+    r = judge_entry_points(ctx, "THDM:mNP-%s-mmu" % rel, "THDM", desc, data, sc, F, u2, (X1T, X2T))
+    if r:
+        st["min_d2"] = min(st["min_d2"], r[2]); st["max_d2"] = max(st["max_d2"], r[2])
 
 
 def check_thdm(ctx):
@@ -254,8 +364,7 @@ def check_thdm(ctx):
                                                                  rn, hexf(X1T), hexf(X2T)))
                                 meta.append((ty, tb, mH, mA, mHp, sba, rn))
     res = evaluate("thdm", specs)
-    st = dict(models=len(specs), checked=0, rejected=0, nonfinite_amu=0, mNP_below_mmu=0, mNP_equals_mmu=0, mNP_above_mmu=0,
-              a1L_neg=0, a2L_neg=0, min_d2=float("inf"), max_d2=0.0)
+    st = new_thdm_st(); st["models"] = len(specs)
     for spec, (ty, tb, mH, mA, mHp, sba, rn), ln in zip(specs, meta, res):
         judge_thdm(ctx, st, spec, ty, tb, mH, mA, mHp, sba, rn, ln)
     ctx.note("thdm", st)
@@ -267,23 +376,284 @@ def check_thdm(ctx):
             _infra(ctx, "THDM lattice does not reach class %s" % k)
 
 
+# ---------------------------------------------------------------- the program as entry point
+OPTS = [(loop, fmt, resum) for loop in (0, 1, 2) for fmt in range(5) for resum in (0, 1)]
+CLI_FLAG = {"gm2calc": "--gm2calc-input-file=-", "slha": "--slha-input-file=-", "thdm": "--thdm-input-file=-"}
+
+
+def strip_block(text, name):
+    out, skip = [], False
+    for ln in text.split("\n"):
+        if re.match(r"\s*block\s", ln, re.I):
+            skip = re.match(r"\s*block\s+%s\b" % re.escape(name), ln, re.I) is not None
+        if not skip:
+            out.append(ln)
+    return "\n".join(out)
+
+
+def block_entries(text, name):
+    d, inb = {}, False
+    for ln in text.split("\n"):
+        if re.match(r"\s*block\s", ln, re.I):
+            inb = re.match(r"\s*block\s+%s\b" % re.escape(name), ln, re.I) is not None
+            continue
+        if inb:
+            tk = ln.split("#")[0].split()
+            if len(tk) == 2:
+                try:
+                    d[int(tk[0])] = float(tk[1])
+                except ValueError:
+                    pass
+    return d
+
+
+def set_entries(text, name, kv):
+    """replace (or insert) single-index entries of a block"""
+    kv = dict(kv)
+    out, inb = [], False
+    for ln in text.split("\n"):
+        if re.match(r"\s*block\s", ln, re.I):
+            inb = re.match(r"\s*block\s+%s\b" % re.escape(name), ln, re.I) is not None
+            out.append(ln)
+            if inb:
+                out.append("\x00INSERT\x00")
+            continue
+        if inb:
+            tk = ln.split("#")[0].split()
+            if len(tk) == 2 and tk[0].isdigit() and int(tk[0]) in kv:
+                out.append("  %4d   %r" % (int(tk[0]), kv.pop(int(tk[0]))))
+                continue
+        out.append(ln)
+    ins = "\n".join("  %4d   %r" % (k, v) for k, v in sorted(kv.items()))
+    res = "\n".join(out)
+    if "\x00INSERT\x00" not in res:
+        raise InfraError("block %s not found in template" % name)
+    return res.replace("\x00INSERT\x00\n", ins + "\n" if ins else "").replace("\x00INSERT\x00", ins)
+
+
+def config_block(fmt, loop, resum, force, unc, running=1):
+    return "Block GM2CalcConfig\n 0 %d\n 1 %d\n 2 %d\n 3 %d\n 4 0\n 5 %d\n 6 %d\n" % (fmt, loop, resum, force, unc, running)
+
+
+def cli_points(quick):
+    """(kind, label, body text without GM2CalcConfig) for every input type"""
+    pts = []
+    # MSSM, GM2Calc input: sub-lattice of the MSSM lattice
+    tbs = [float("nan")] if quick else [float("nan"), 2.0, 50.0]
+    fas = [0.0, 1.0] if quick else [0.0, 1.0, -1.0]
+    for f in bases():
+        body = strip_block(open(f).read(), "GM2CalcConfig")
+        e = block_entries(body, "GM2CalcInput")
+        for tb in tbs:
+            for sg in [(a, b, c) for a in (1, -1) for b in (1, -1) for c in (1, -1)]:
+                for fa in fas:
+                    t = e[3] if math.isnan(tb) else tb
+                    mu = e[4] * sg[0]
+                    kv = {3: t, 4: mu, 5: e[5] * sg[1], 6: e[6] * sg[2], 25: e.get(25, 0.0) + fa * mu * t}
+                    pts.append(("gm2calc", "MSSM/GM2Calc %s tb=%s signs=%r fA=%g" % (os.path.basename(f), "file" if math.isnan(tb) else tb, sg, fa),
+                                set_entries(body, "GM2CalcInput", kv)))
+    # MSSM, SLHA input: shipped example x sign patterns
+    body = strip_block(open(os.path.join(REPO, "input", "example.slha")).read(), "GM2CalcConfig")
+    hm, ms = block_entries(body, "HMIX"), block_entries(body, "MSOFT")
+    for sg in [(a, b, c) for a in (1, -1) for b in (1, -1) for c in (1, -1)]:
+        t = set_entries(body, "HMIX", {1: hm[1] * sg[0]})
+        t = set_entries(t, "MSOFT", {1: ms[1] * sg[1], 2: ms[2] * sg[2]})
+        pts.append(("slha", "MSSM/SLHA example.slha signs=%r" % (sg,), t))
+    # THDM mass basis: sub-lattice of the THDM lattice
+    tmpl = strip_block(open(os.path.join(REPO, "input", "example.thdm")).read(), "GM2CalcConfig")
+    light = [0.05, 1.0, 150.0] if quick else [0.05, 0.1, MM, 0.11, 1.0, 150.0, 1000.0]
+    for ty in (1, 2, 3, 4, 5, 6):
+        zu, zd, zl = (0.3, -0.2, 1.5) if ty == 5 else (0.0, 0.0, 0.0)
+        for tb in ([3.0] if quick else [0.5, 3.0, 50.0]):
+            for mH in ([150.0] if quick else [125.0, 150.0, 1000.0]):
+                for mA in light:
+                    for mHp in light:
+                        for sba in (1.0, 0.995):
+                            t = set_entries(tmpl, "MINPAR", {3: tb, 16: 0.0, 17: 0.0, 18: 0.0, 20: sba, 21: zu, 22: zd, 23: zl, 24: ty})
+                            t = set_entries(t, "MASS", {25: 125.0, 35: mH, 36: mA, 37: mHp})
+                            pts.append(("thdm", "THDM/mass type %d tb=%g mH=%g mA=%r mH+=%r sba=%g" % (ty, tb, mH, mA, mHp, sba), t))
+    # THDM gauge basis: shipped test point x Yukawa type x tan(beta)
+    tmpl = strip_block(open(os.path.join(REPO, "test", "test_points", "thdm_gauge-basis.in")).read(), "GM2CalcConfig")
+    for ty in (1, 2, 3, 4, 5, 6):
+        for tb in (1.0, 3.0, 10.0):
+            pts.append(("thdm", "THDM/gauge type %d tb=%g" % (ty, tb), set_entries(tmpl, "MINPAR", {3: tb, 24: ty})))
+    return pts
+
+
+def _harness_text(exe, kind, text, x):
+    p = subprocess.run([exe], input="text %s %s %s %d\n%s" % (kind, hexf(x[0]), hexf(x[1]), len(text.encode()), text),
+                       stdout=subprocess.PIPE, stderr=subprocess.PIPE, text=True, timeout=600)
+    for ln in p.stdout.split("\n"):
+        if ln[:2] in ("M ", "T "):
+            return ln
+    raise InfraError("unc harness (text): %s" % (p.stdout[-300:] + p.stderr[-300:]))
+
+
+def _parse_cli(fmt, unc, out):
+    """the token that carries the requested number"""
+    if fmt == 0:
+        tk = out.split()
+        return tk[-1] if tk else None
+    if fmt == 1:
+        m = re.search(r"=\s*(\S+)\s*\+-\s*(\S+)", out)
+        return (m.group(2) if unc else m.group(1)) if m else None
+    inb, val = False, None
+    for ln in out.split("\n"):
+        if re.match(r"\s*block\s", ln, re.I):
+            inb = re.match(r"\s*block\s+GM2CalcOutput\b", ln, re.I) is not None
+            continue
+        if inb:
+            tk = ln.split("#")[0].split()
+            if len(tk) == 2 and tk[0] == ("1" if unc else "0"):
+                val = tk[1]
+    return val
+
+
+def _cli_task(args):
+    cli, exe, kind, label, body = args
+    x = (X1T, X2T) if kind == "thdm" else (X1M, X2M)
+    force = 0
+    ln = _harness_text(exe, kind, config_block(0, 2, 1, 0, 1) + body, x)
+    if ln.split()[1] == "EXC":
+        force = 1
+        ln = _harness_text(exe, kind, config_block(0, 2, 1, 1, 1) + body, x)
+        if ln.split()[1] == "EXC":
+            return label, kind, None, force, {}, {}, None
+    outs, amu, ln_forced = {}, {}, None
+    for loop, fmt, resum in OPTS:
+        p = subprocess.run([cli, CLI_FLAG[kind]], input=config_block(fmt, loop, resum, force, 1) + body,
+                           stdout=subprocess.PIPE, stderr=subprocess.PIPE, text=True, timeout=600)
+        tok, f2 = _parse_cli(fmt, 1, p.stdout), force
+        if tok is None and p.returncode != 0 and not force:
+            # the program refuses (e.g. a_mu without resummation hits a tachyon): same options with force-output
+            f2 = 1
+            p = subprocess.run([cli, CLI_FLAG[kind]], input=config_block(fmt, loop, resum, 1, 1) + body,
+                               stdout=subprocess.PIPE, stderr=subprocess.PIPE, text=True, timeout=600)
+            tok = _parse_cli(fmt, 1, p.stdout)
+            if ln_forced is None:
+                ln_forced = _harness_text(exe, kind, config_block(0, 2, 1, 1, 1) + body, x)
+        outs[(loop, fmt, resum)] = (p.returncode, tok, f2)
+    for loop in (1, 2):
+        p = subprocess.run([cli, CLI_FLAG[kind]], input=config_block(0, loop, 1, force, 0) + body,
+                           stdout=subprocess.PIPE, stderr=subprocess.PIPE, text=True, timeout=600)
+        amu[loop] = _parse_cli(0, 0, p.stdout)
+    return label, kind, ln, force, outs, amu, ln_forced
+
+
+def matches_printed(tok, val):
+    """tok is a correctly rounded rendering of val at the number of digits it shows"""
+    try:
+        x = float(tok)
+    except (TypeError, ValueError):
+        return False
+    if not math.isfinite(val) or not math.isfinite(x):
+        return (math.isnan(val) and math.isnan(x)) or val == x
+    m = re.match(r"^[+-]?\d+(?:\.(\d*))?([eE][+-]?\d+)?$", tok)
+    if not m:
+        return False
+    nd = len(m.group(1) or "")
+    return float(("%%.%d%s" % (nd, "e" if m.group(2) else "f")) % val) == x
+
+
+def judge_cli(ctx, st, label, kind, ln, force, outs, amu, ln_forced=None):
+    model = "THDM" if kind == "thdm" else "MSSMNoFV_onshell"
+    fam = "cli:%s" % label.split(" ")[0]
+    data = {"model": "cli", "label": label}
+    if ln is None:
+        st["rejected"] += 1
+        return
+    status, sc, F = parse_line(ln)
+    a1, a2 = sc["a1L"], sc["a2L"]
+    if not fin(a1, a2):
+        st["nonfinite_amu"] += 1
+        return
+    st["points"] += 1; st["forced"] += force
+    U = {k: F[("calculate_uncertainty_amu_%dloop|%s|0" % (k, model), "v")] for k in (0, 1, 2)}
+    floor = FLOOR[model]
+    UF = None
+    if ln_forced is not None and ln_forced.split()[1] != "EXC":
+        Ff = parse_line(ln_forced)[2]
+        UF = {k: Ff[("calculate_uncertainty_amu_%dloop|%s|0" % (k, model), "v")] for k in (0, 1, 2)}
+    for (loop, fmt, resum), (rc, tok, f2) in sorted(outs.items()):
+        st["runs"] += 1
+        ctx.evals(1)
+        Ux = U if f2 == force else UF
+        if Ux is None:
+            st["refused_runs"] = st.get("refused_runs", 0) + 1
+            continue
+        if f2 != force:
+            st["runs_needing_force"] = st.get("runs_needing_force", 0) + 1
+        want = Ux[2] if fmt == 1 else Ux[loop]
+        what = "%s, GM2CalcConfig: format %d, loop order %d, resummation %d, force %d, uncertainty 1" % (label, fmt, loop, resum, f2)
+        ctx.nontrivial(("cli", label.split(" ")[0], fmt, loop, resum))
+        if tok is None:
+            ctx.fail("%s:fmt%d:loop%d:no-uncertainty-printed" % (fam, fmt, loop), "%s: no uncertainty in the output (exit %d)" % (what, rc), data)
+            continue
+        if not matches_printed(tok, want):
+            ctx.fail("%s:fmt%d:loop%d:printed-differs-from-library" % (fam, fmt, loop),
+                     "%s: program prints %s, calculate_uncertainty_amu_%dloop(model) = %r" % (what, tok, 2 if fmt == 1 else loop, want), data)
+    # the documented sums from the program's own numbers (every format / resummation setting that prints U_loop)
+    try:
+        p1, p12 = float(amu[1]), float(amu[2])
+    except (TypeError, ValueError):
+        ctx.fail("%s:no-amu-printed" % fam, "%s: a_mu at loop order 1 / 2 not printed (%r, %r)" % (label, amu.get(1), amu.get(2)), data)
+        return
+    p2 = p12 - p1
+    for fmt in (0, 2, 3, 4):
+        for resum in (0, 1):
+            try:
+                u0, u1, u2 = (float(outs[(k, fmt, resum)][1]) for k in (0, 1, 2))
+            except (TypeError, ValueError):
+                continue
+            tol = 3e-8 * (abs(p1) + abs(p12) + u0 + u1 + u2)
+            e0 = abs(p1) + (abs(p2) if model == "THDM" else 0.0)
+            if not abs(u0 - e0) <= tol:
+                ctx.fail("%s:fmt%d:U0-sum" % (fam, fmt), "%s (format %d, resummation %d): uncertainty at loop order 0 = %r but the program's own "
+                         "a_1L = %r, a_2L = %r give %r" % (label, fmt, resum, u0, p1, p2, e0), data)
+            if not abs(u1 - (abs(p2) + u2)) <= tol:
+                ctx.fail("%s:fmt%d:U1-sum" % (fam, fmt), "%s (format %d, resummation %d): uncertainty at loop order 1 = %r but |a_2L| + U2 = %r + %r"
+                         % (label, fmt, resum, u1, abs(p2), u2), data)
+            if not u2 >= floor * (1 - 1e-8):
+                ctx.fail("%s:fmt%d:U2-floor" % (fam, fmt), "%s (format %d, resummation %d): uncertainty at loop order 2 = %r below the floor %g"
+                         % (label, fmt, resum, u2, floor), data)
+
+
+def check_cli(ctx):
+    build.ensure("plain")
+    cli, exe = build.cli("plain"), _exe()
+    pts = cli_points(ctx.quick)
+    st = dict(points_rendered=len(pts), points=0, rejected=0, nonfinite_amu=0, forced=0, runs=0, by_input_type={})
+    tasks = [(cli, exe, kind, label, body) for kind, label, body in pts]
+    with mp.Pool(NPROC) as pool:
+        for label, kind, ln, force, outs, amu, lnf in pool.imap(_cli_task, tasks, chunksize=4):
+            t = label.split(" ")[0]
+            st["by_input_type"][t] = st["by_input_type"].get(t, 0) + 1
+            judge_cli(ctx, st, label, kind, ln, force, outs, amu, lnf)
+    ctx.note("cli", st)
+    ctx.sample({"cli option product": "loop order {0,1,2} x output format {0..4} x resummation {0,1} with GM2CalcConfig[5]=1, plus a_mu at loop order 1 and 2",
+                "input types": sorted(st["by_input_type"])})
+    if st["points"] < 0.5 * len(pts):
+        _infra(ctx, "CLI lattice: only %d of %d points give a finite a_mu" % (st["points"], len(pts)))
+    if len(st["by_input_type"]) < 4:
+        _infra(ctx, "CLI lattice does not cover all four input types: %r" % st["by_input_type"])
+
+
 def run(ctx):
     build.ensure("plain")
     check_mssm(ctx)
     check_thdm(ctx)
+    check_cli(ctx)
+    ctx.note("declared_entry_points", {k: v for k, v in sorted((DECLARED or {}).items())})
     ctx.assumptions += [
         "documented compositions (doc comments of src/MSSMNoFV/gm2_uncertainty.cpp and src/THDM/gm2_uncertainty.cpp): MSSM delta_0L=|a_1L|, delta_1L=|a_2L|+delta_2L, delta_2L=2.3e-10+0.3(|2L(a)cha|+|2L(a)sferm|); THDM delta_0L=|a_1L|+|a_2L|, delta_1L=|a_2L|+delta_2L, delta_2L=2e-12+(|a_1L|+|a_2L|)|4 alpha/pi log(m_NP/m_mu)|, m_NP=min(mH,mA,mH+)",
         "models rejected with an exception (also under force-output) or with non-finite a_mu are outside the quantifier and only counted",
-        "sums are compared with 2 ulp slack (4 ulp for the THDM formula), overload agreement bitwise"]
+        "sums are compared with 2 ulp slack (4 ulp for the THDM formula), entry-point agreement bitwise; printed numbers must be the correctly rounded rendering of the library value at the printed digits; sums from printed numbers within 3e-8 of the magnitudes involved",
+        "command line: the detailed format prints the 2L uncertainty at every loop order (README); the uncertainty ignores the resummation switch",
+        "C15 compares every number gm2calc.x prints (a_mu and uncertainty, all 480 GM2CalcConfig combinations) with the API on its own inputs (examples, test points, a small lattice); here the loop order x format x resummation product is run on the C18 lattice points in all four input types and the uncertainty sums are checked from the program's own outputs"]
     return ctx.finish(
         "complete product base point x tan(beta) x sign pattern x A_mu factor (MSSM) and type x tan(beta) x mH x mA x mH+ x sin(b-a) "
-        "(THDM); distinct = (model, sign pattern of the ingredients / relation of m_NP to m_mu)")
-
-
-MSSM_ST = dict(models=0, ok=0, forced=0, rejected=0, nonfinite_amu=0, a1L_neg=0, a2L_neg=0, cha_neg=0, sferm_neg=0,
-               a2L_exceeds_a1L=0, min_d2=float("inf"), max_d2=0.0)
-THDM_ST = dict(models=0, checked=0, rejected=0, nonfinite_amu=0, mNP_below_mmu=0, mNP_equals_mmu=0, mNP_above_mmu=0,
-               a1L_neg=0, a2L_neg=0, min_d2=float("inf"), max_d2=0.0)
+        "(THDM), every declared entry point on each; command line: sub-lattice in 4 input types x loop order x format x resummation; "
+        "distinct = (model, sign pattern of the ingredients / relation of m_NP to m_mu) and (input type, format, loop order, resummation)")
 
 
 def replay(ctx, path):
@@ -291,6 +661,8 @@ def replay(ctx, path):
     key, data = d["key"], d["data"]
 
     class R:
+        quick = not os.path.basename(path).startswith("thorough")
+
         def __init__(self):
             self.f = []
 
@@ -303,11 +675,20 @@ def replay(ctx, path):
     if data["model"] == "mssm":
         (ln,) = evaluate("mssm", [data["spec"]], bases())
         print("replay:", ln[:160])
-        judge_mssm(r, dict(MSSM_ST), data["spec"], data["base"], float(data["tb"]), tuple(data["signs"]), data["fA"], ln)
-    else:
+        judge_mssm(r, new_mssm_st(), data["spec"], data["base"], float(data["tb"]), tuple(data["signs"]), data["fA"], ln)
+    elif data["model"] == "thdm":
         (ln,) = evaluate("thdm", [data["spec"]])
         print("replay:", ln[:160])
-        judge_thdm(r, dict(THDM_ST), data["spec"], *data["meta"], ln)
+        judge_thdm(r, new_thdm_st(), data["spec"], *data["meta"], ln)
+    else:
+        build.ensure("plain")
+        pt = [p for p in cli_points(r.quick) if p[1] == data["label"]]
+        if not pt:
+            print("replay: point %r is not in the lattice of this tier" % data["label"])
+            return 2
+        kind, label, body = pt[0]
+        res = _cli_task((build.cli("plain"), _exe(), kind, label, body))
+        judge_cli(r, dict(points=0, rejected=0, nonfinite_amu=0, forced=0, runs=0), *res)
     for k, w in r.f:
         if k == key:
             print("replay:", w)
